@@ -12,6 +12,7 @@ import CatiiProofs.Collapsed
 import CatiiProofs.SetUpdates
 import CatiiProofs.ShiftGenBridge
 import CatiiProofs.AppendGenBridge
+import CatiiProofs.FilteredGenBridge
 import CatiiProofs.ValidateGenBridge
 /-!
 # C07 — every operation preserves index well-formedness
@@ -74,6 +75,11 @@ theorem generated_append_keeps_wellformed {i other : IIndex} (ok : AppendOK i ot
     simp only [this, if_false]
     exact hr
   exact (append_refines ok hnd r hr').1
+
+/-- `filtered` as REGENERATED from the source on every run (`Gen.filteredPreGen` + the re-encoding) preserves well-formedness -/
+theorem generated_filtered_keeps_wellformed {i : IIndex} {mask : List Bool} {n' : Nat} (ok : FilterOK i mask n')
+    (hnd : i.ndim ≤ 2) (res : IIndex) (hr : shiftCommon (Gen.filteredPreGen i mask n') none = .ok res) : WF res :=
+  (filtered_refines ok hnd res (filtered_of_gen ok res hr)).1
 
 /-- `from_array(values, counts, common, mapping)` returns a well-formed index on both construction paths -/
 theorem from_array_wellformed (a : Arr) (o : FromOpts) (idx : IIndex) (w : Bool) (harr : ArrOK a)
